@@ -220,6 +220,52 @@ def pair_event(ns, tid, seq, model, I, driver, k, rng):
             "changed_inputs": ch, "obs": ev1["obs"], "obs2": ev2["obs"]}, ev2
 
 
+def pair_event_live(ns, tid, seq, model, I, driver, k, rng):
+    """the same pair observed on ONE live system: built with other server types, switched to the model's types by edits, observed,
+    then the driver's inputs are multiplied by edits and it is observed again"""
+    import copy
+    sc = scaled_model(model, I, driver, k, rng)
+    if sc is None:
+        return None
+    m2, I2, ch = sc
+    m0 = copy.deepcopy(model)
+    servers = [v for v in efx.names_of(model, "Server") if model[v]["opt"].get("fixed_nb") is None]
+    if not servers:
+        return None
+    for v in servers:
+        m0[v]["opt"]["server_type"] = rng.choice([x for x in ("autoscaling", "serverless", "on-premise")
+                                                  if x != model[v]["opt"]["server_type"]])
+    try:
+        live = efx.build(ns, m0)
+    except Exception:   # noqa
+        return None
+
+    def to_model():
+        cur = m0
+        for v in servers:
+            e = ("opt", v, "server_type", model[v]["opt"]["server_type"])
+            efx.apply_edit_live(ns, cur, live, e)
+            cur = efx.apply_edit_abstract(cur, e)
+        return live
+
+    def to_scaled():
+        cur = model
+        for obj, attr in ch:
+            e = ("opt", obj, "starts", [m2[obj]["opt"]["starts"], m2[obj]["opt"]["start"]]) \
+                if attr == "hourly_usage_journey_starts" else ("input", obj, attr, m2[obj]["inp"][attr])
+            efx.apply_edit_live(ns, cur, live, e)
+            cur = efx.apply_edit_abstract(cur, e)
+        return live
+    ev1, _ = model_event(ns, tid, seq, model, I, live=to_model)
+    if ev1["raised"] != "none":
+        return None
+    ev2, _ = model_event(ns, tid, seq, m2, I2, live=to_scaled)
+    if ev2["raised"] != "none":
+        return None
+    return {"tid": tid, "seq": seq, "ev": "Pair", "T": ev1["T"], "I": I, "I2": I2, "driver": driver, "k": k,
+            "changed_inputs": ch, "obs": ev1["obs"], "obs2": ev2["obs"]}, ev2
+
+
 INVARIANTS = {
     "usage": ["OccurrencesConserved", "OccurrencesPlaced", "OccurrenceHoursConserved", "DataConserved",
               "JourneysInParallelConserved", "DeviceEnergyConserved", "AcrossPatternsAddsUp"],
